@@ -55,7 +55,7 @@ G_INT_CUR = f"{_F}.__getitem__/ensures.int_index_equals_kth_iterated.from_every_
 G_SL_CUR = f"{_F}.__getitem__/ensures.slice_equals_iterated_slice.from_every_cursor"
 G_INT_IT = f"{_F}.__getitem__/ensures.int_index_equals_kth_iterated.after_partial_iteration"
 G_SL_IT = f"{_F}.__getitem__/ensures.slice_equals_iterated_slice.after_partial_iteration"
-G_IDXERR = f"{_F}.__getitem__/ensures.index_error_outside_range.from_every_state"
+G_IDXERR = f"{_F}.__getitem__/ensures.out_of_range_index_returns_no_residue.from_every_state"
 G_PAIR = f"{_F}.__getitem__/ensures.two_accesses_in_a_row_equal_single_accesses"
 H_HIST = f"{_F}/history.public_access_sequence_len200_every_step_equals_oracle"
 
@@ -86,7 +86,12 @@ def _info_bounded(prop):
         "assumptions": ["the only mutable read state of a loaded SystemGro is the shared GroFile cursor (file offset and "
                         "_current_atom), both set by GroFile.seek_atom; this is what makes 'every cursor position' an arbitrary state",
                         "residue/atom numbers and names fit the gro field widths; coordinates fit %8.3f / velocities %8.4f",
-                        "comment_line may or may not keep the line terminator of the title line"],
+                        "not fixed by the statement, hence never refuting (mismatch -> undecided '.informational' obligation or ignored): "
+                        "the exception type for an out-of-range index (any exception or 'no residue' is accepted), slices whose bounds lie "
+                        "beyond the residue range, refusing a negative slice step, how 'no velocity' is represented, rows-vs-columns layout "
+                        "of the box matrix, line terminator/outer blanks of the title, attribute names of atoms and of the view",
+                        "a failure seen from a cursor forced through the private file handle refutes only if it is reproduced through "
+                        "public operations alone (state after loading, or after fetching another residue); otherwise it is undecided"],
         "explanation": (
             "All obligations are bounded run-time contract checks on the real SystemGro (no deductive part). Exhaustive small scope: "
             "every residue-kind sequence of length <= 4 (quick) / <= 5 (thorough) over {A with 2 atoms, A with 1 atom, B with 2 atoms, "
@@ -243,12 +248,19 @@ def _num_eq(a, b):
         return False
 
 
+class Harness(Exception):
+    """The harness cannot observe (renamed attribute, ...): the task ends undecided, never refuted."""
+
+
 def obs_atoms(res):
     out = []
     for a in res:
-        vel = a.velocity
-        out.append((a.resid, a.resname, a.name, a.atomid, [float(x) for x in a.position],
-                    None if vel is None else [float(x) for x in vel]))
+        try:
+            vel = a.velocity
+            rec = (a.resid, a.resname, a.name, a.atomid, a.position)
+        except AttributeError as e:     # attribute names are not part of the statement
+            raise Harness("cannot read the fields of a returned atom: %s" % e)
+        out.append(rec[:4] + ([float(x) for x in rec[4]], None if vel is None else [float(x) for x in vel]))
     return out
 
 
@@ -259,9 +271,8 @@ def atom_eq(o, r):
         return False
     if len(o[4]) != 3 or any(abs(x - y) > TOL for x, y in zip(o[4], r[4])):
         return False
-    if (o[5] is None) != (r[5] is None):
-        return False
-    if r[5] is not None and (len(o[5]) != 3 or any(abs(x - y) > TOL for x, y in zip(o[5], r[5]))):
+    # a file without velocities: how "no velocity" is represented is not fixed by the statement -> not compared
+    if r[5] is not None and (o[5] is None or len(o[5]) != 3 or any(abs(x - y) > TOL for x, y in zip(o[5], r[5]))):
         return False
     return True
 
@@ -273,6 +284,8 @@ def _brief(atoms):
 def cmp_residue(res, exp):
     try:
         o = obs_atoms(res)
+    except Harness:
+        raise
     except Exception as e:
         return ("result is not a residue of atoms: %s: %s" % (type(e).__name__, e), _brief(exp))
     if len(o) != len(exp):
@@ -355,7 +368,7 @@ class Session:
         fg = self.sg._open_fgro          # AttributeError here = harness problem (renamed attribute)
         r = _call(fg.seek_atom, c)
         if isinstance(r, Raised):
-            return {"state": ("seek_atom(%d) %s" % (c, r), "cursor moved to atom %d (file has %d atoms)" % (c, len(self.records)))}
+            return {"state_soft": ("seek_atom(%d) %s" % (c, r), "cursor moved to atom %d (file has %d atoms)" % (c, len(self.records)))}
         return {}
 
     def _op_get(self, k):
@@ -364,21 +377,33 @@ class Session:
             if isinstance(r, Raised):
                 return {"item": (str(r), "residue %d %s" % (k, _brief(self.E[k])))}
             return {"item": cmp_residue(r, self.E[k])}
-        if isinstance(r, Raised) and isinstance(r.e, IndexError):
+        # out of range: the statement names no exception type; any exception / no residue is accepted
+        if isinstance(r, Raised) or r is None:
             return {"index_error": None}
-        return {"index_error": (str(r) if isinstance(r, Raised) else "returns a value", "IndexError (file has %d residues)" % self.n)}
+        try:
+            got = obs_atoms(r)
+        except Harness:
+            raise
+        except Exception:
+            return {"index_error": None}
+        if not got:
+            return {"index_error": None}
+        return {"index_error": ("returns a residue %s" % _brief(got), "an exception or no residue (file has %d residues)" % self.n)}
 
     def _op_slice(self, a, b, s):
         exp = self.E[a:b:s]
         r = _call(self.sg.__getitem__, slice(a, b, s))
+        # bounds beyond the residue range, and refusing a negative step, are not fixed by the statement: informational
+        oob = any(x is not None and not (-self.n <= x <= self.n) for x in (a, b))
         if isinstance(r, Raised):
-            return {"slice": (str(r), "%d residues" % len(exp))}
-        return {"slice": cmp_list(r, exp)}
+            soft = oob or (s is not None and s < 0)
+            return {"slice_soft" if soft else "slice": (str(r), "%d residues" % len(exp))}
+        return {"slice_soft" if oob else "slice": cmp_list(r, exp)}
 
     def _op_iter_new(self, iid):
         r = _call(iter, self.sg)
         if isinstance(r, Raised):
-            return {"state": ("iter() " + str(r), "an iterator")}
+            return {"iter": ("iter() " + str(r), "an iterator")}
         self.its[iid] = [r, 0]
         return {}
 
@@ -429,6 +454,8 @@ class Session:
         try:
             atoms = [a for r in lst for a in obs_atoms(r)]
             sizes = [len(r) for r in lst]
+        except Harness:
+            raise
         except Exception as e:
             f = ("iteration yields something that is not a residue: %s" % e, "%d residues" % self.n)
             return {"concat": f, "boundaries": f}
@@ -452,6 +479,9 @@ class Session:
         res = {}
         r = _call(len, self.sg)
         res["len"] = None if (not isinstance(r, Raised) and r == self.n) else (str(r), str(self.n))
+        r = _call(lambda: (self.sg.n_atoms, self.sg.box_matrix, self.sg.comment_line))
+        if isinstance(r, Raised) and isinstance(r.e, AttributeError):
+            raise Harness("cannot read n_atoms / box_matrix / comment_line: %s" % r.e)   # names are not in the statement
         r = _call(lambda: self.sg.n_atoms)
         res["n_atoms"] = None if (not isinstance(r, Raised) and _num_eq(r, len(self.records))) else (str(r), str(len(self.records)))
         r = _call(lambda: self.sg.box_matrix)
@@ -459,19 +489,21 @@ class Session:
         if not isinstance(r, Raised):
             try:
                 arr = np.array(r, dtype=float)
-                okb = arr.shape == (3, 3) and bool(np.all(np.abs(arr - np.array(self.boxm)) <= 1e-9))
+                M = np.array(self.boxm)       # rows or columns as box vectors: the statement does not fix the layout
+                okb = arr.shape == (3, 3) and (bool(np.all(np.abs(arr - M) <= 1e-9)) or bool(np.all(np.abs(arr - M.T) <= 1e-9)))
             except Exception:
                 okb = False
         res["box"] = None if okb else (str(r if isinstance(r, Raised) else np.array(r).tolist()), str(self.boxm))
         r = _call(lambda: self.sg.comment_line)
-        okt = isinstance(r, str) and (r == self.title or r == self.title + "\n")
+        okt = isinstance(r, str) and r.strip() == self.title.strip()     # line terminator / outer blanks are layout
         res["title"] = None if okt else (repr(r) if not isinstance(r, Raised) else str(r), repr(self.title))
         return res
 
 
-def first_failure(results):
+def first_failure(results, soft=False):
+    """First failing sub-clause; informational ('*_soft') sub-clauses only when soft=True."""
     for k, v in results.items():
-        if v is not None:
+        if v is not None and (soft or not k.endswith("_soft")):
             return k, v
     return None
 
@@ -486,6 +518,17 @@ class Acc:
         self.d = {}
         self.order = []
         self.rich = False
+        self.soft = {}
+
+    def refuted(self, oid):
+        e = self.d.get(oid)
+        return e is not None and e["first"] is not None
+
+    def note(self, oid, res, what):
+        """A mismatch on something the statement does not fix: reported as an undecided informational obligation."""
+        if oid not in self.soft:
+            self.soft[oid] = [0, res, what]
+        self.soft[oid][0] += 1
 
     def add(self, oid, res, mk_cex, nontrivial=True, sample=None):
         e = self.d.get(oid)
@@ -518,6 +561,11 @@ class Acc:
                               reason="%d/%d evaluations fail; first: observed %s; expected %s; file %s; ops %s" % (
                                   e["nbad"], e["n"], obs, exp, cex.get("label"), str(cex.get("ops"))[:300]),
                               cex=cex))
+        for oid, (cnt, (obs, exp), what) in self.soft.items():
+            out.append(ob(oid + ".informational/" + self.family, "undecided", kind="bounded", engine="smallscope",
+                          backend="runtime-contract", evaluations=cnt,
+                          reason="%d mismatches on behaviour the statement does not fix (%s); first: observed %s; expected %s" % (
+                              cnt, what, obs, exp)))
         return out
 
 
@@ -621,18 +669,68 @@ def _oid_for(op, sub, o_int, o_sl):
 # the per-file contract evaluation
 
 
+SOFT_WHAT = ("bounds beyond the residue range / negative step refused / cursor forced through a private handle "
+             "without a reproduction through public operations")
+
+
+def record(acc, oid, sub, val, mk_cex, **kw):
+    """Account one evaluation; mismatches of informational ('*_soft') sub-clauses never refute."""
+    if sub.endswith("_soft"):
+        if val is not None:
+            acc.note(oid, val, SOFT_WHAT)
+        acc.add(oid, None, None, **kw)
+    else:
+        acc.add(oid, val, mk_cex, **kw)
+
+
+def public_reproduction(fc, sess, c, op):
+    """The forced cursor is set through the private file handle.  A failure seen from it refutes only if it is
+    also seen through public operations alone: from the state after loading, or after fetching the residue that
+    ends at atom c (which leaves the cursor at c)."""
+    cands = [[op]]
+    for k in range(1, sess.n + 1):
+        if sess.starts[k] == c:
+            cands.append([["get", k - 1], op])
+    if sess.n <= 6:
+        for k in range(sess.n):
+            cands.append([["get", k], op])
+    seen = []
+    for ops in cands:
+        if ops in seen:
+            continue
+        seen.append(ops)
+        if fc.fails_fresh(ops):
+            return ops
+    return None
+
+
 def cursor_access(acc, fc, sess, c, op):
     """Single-step obligation: force the shared cursor to atom c, perform the access, compare."""
+    oid0 = G_INT_CUR if op[0] == "get" else G_SL_CUR
     st = sess.do(["seek", c])
-    if st.get("state"):
-        acc.add(G_INT_CUR if op[0] == "get" else G_SL_CUR, st["state"], lambda: fc.cex("state", [["seek", c]], sess, st["state"]))
+    if st.get("state_soft"):
+        acc.note(oid0, st["state_soft"], "the cursor could not be forced through the private file handle")
         return
     r = sess.do(op)
     sub, val = next(iter(r.items()))
+    oid = _oid_for(op, sub, G_INT_CUR, G_SL_CUR)
     fs = _first_start(sess, op)
-    acc.add(_oid_for(op, sub, G_INT_CUR, G_SL_CUR), val, lambda: fc.cex(sub, [["seek", c], op], sess, val),
-            nontrivial=(fs is not None and fs != c) or sub == "index_error",
-            sample={"file": fc.label, "forced_cursor": c, "access": op})
+    kw = dict(nontrivial=(fs is not None and fs != c) or sub == "index_error",
+              sample={"file": fc.label, "forced_cursor": c, "access": op})
+    if val is None or sub.endswith("_soft"):
+        record(acc, oid, sub, val, None, **kw)
+        return
+    if acc.refuted(oid):
+        acc.add(oid, val, None, **kw)          # already refuted with a public reproduction: just count
+        return
+    pub = public_reproduction(fc, sess, c, op)
+    if pub is None:
+        acc.note(oid, val, SOFT_WHAT + "; file %s forced cursor %d access %s" % (fc.label, c, op))
+        acc.add(oid, None, None, **kw)
+        return
+    cex = fc.cex(sub, pub, None, val)
+    cex["seen_first_with"] = [["seek", c], op]
+    acc.add(oid, val, lambda: cex, **kw)
 
 
 def check_file(acc, fc, *, cursors="all", accesses="all", partial=True, pairs=True, fresh=True, rng=None):
@@ -677,7 +775,7 @@ def check_file(acc, fc, *, cursors="all", accesses="all", partial=True, pairs=Tr
                         continue
                     r = s2.do(op)
                     sub, val = next(iter(r.items()))
-                    acc.add(_oid_for(op, sub, G_INT_CUR, G_SL_CUR), val, lambda: fc.cex(sub, [op], None, val),
+                    record(acc, _oid_for(op, sub, G_INT_CUR, G_SL_CUR), sub, val, lambda: fc.cex(sub, [op], None, val),
                             sample={"file": fc.label, "forced_cursor": "as left by construction", "access": op})
                 finally:
                     s2.close()
@@ -687,8 +785,8 @@ def check_file(acc, fc, *, cursors="all", accesses="all", partial=True, pairs=Tr
                 for op in fam:
                     ops = [["iter_new", 0], ["iter_next", 0, j], op, ["iter_rest", 0]]
                     st = sess.do(ops[0])
-                    if st.get("state"):
-                        acc.add(I_RESUME, st["state"], lambda: fc.cex("state", ops[:1], sess, st["state"]))
+                    if st.get("iter"):
+                        acc.add(I_RESUME, st["iter"], lambda: fc.cex("iter", ops[:1], sess, st["iter"]))
                         continue
                     r0 = sess.do(ops[1]) if j else {"resume": None}
                     if r0["resume"] is not None:
@@ -697,8 +795,8 @@ def check_file(acc, fc, *, cursors="all", accesses="all", partial=True, pairs=Tr
                         continue
                     r = sess.do(op)
                     sub, val = next(iter(r.items()))
-                    acc.add(_oid_for(op, sub, G_INT_IT, G_SL_IT) if sub != "index_error" else G_IDXERR, val,
-                            lambda: fc.cex(sub, ops[:3], sess, val),
+                    record(acc, _oid_for(op, sub, G_INT_IT, G_SL_IT), sub, val,
+                           lambda: fc.cex(sub, ops[:3], sess, val),
                             sample={"file": fc.label, "iterated_before": j, "access": op})
                     r2 = sess.do(ops[3])
                     acc.add(I_RESUME, r2["resume"], lambda: fc.cex("resume", ops, sess, r2["resume"]), nontrivial=j < n,
@@ -711,6 +809,9 @@ def check_file(acc, fc, *, cursors="all", accesses="all", partial=True, pairs=Tr
                     r1 = sess.do(op1)
                     r2 = sess.do(op2)
                     v = first_failure(r1) or first_failure(r2)
+                    sv = first_failure(r1, soft=True) or first_failure(r2, soft=True)
+                    if v is None and sv is not None:
+                        acc.note(G_PAIR, sv[1], SOFT_WHAT)
                     acc.add(G_PAIR, v[1] if v else None, lambda: fc.cex(v[0], [op1, op2], sess, v[1]),
                             sample={"file": fc.label, "accesses": [op1, op2]})
     finally:
@@ -763,6 +864,9 @@ def run_history(acc, fc, rng, length=200):
         for i, op in enumerate(ops):
             r = sess.do(op)
             v = first_failure(r)
+            sv = first_failure(r, soft=True)
+            if v is None and sv is not None:
+                acc.note(H_HIST, sv[1], SOFT_WHAT)
             if op[0] == "iter_new" and v is None:
                 continue
             acc.add(H_HIST, v[1] if v else None, lambda: fc.cex(v[0], [op], sess, v[1]),
